@@ -3,7 +3,7 @@
 // Licensed under the MIT license. See LICENSE file in the project root for details.
 
 //! Checks that have to hold before any code is generated: every name that ends up
-//! as a Rust identifier is one.
+//! as a Rust identifier is one, and includes do not form a cycle.
 
 use anyhow::{bail, Result};
 
@@ -83,6 +83,8 @@ pub fn validate_grammar(grammar: &Grammar, settings: &CodegenSettings) -> Result
             bail!("Derive '{derive}' is not a Rust identifier");
         }
     }
+    // Rule name -> rules it includes with '>'
+    let mut include_graph: Vec<(&str, Vec<String>)> = Vec::new();
     for rule_entry in &grammar.rules {
         match rule_entry {
             Grammar_rules::Rule(rule) => {
@@ -94,6 +96,7 @@ pub fn validate_grammar(grammar: &Grammar, settings: &CodegenSettings) -> Result
                 }
                 let mut includes = Vec::new();
                 check_choice(&rule.definition, &mut includes)?;
+                include_graph.push((&rule.name, includes));
             }
             Grammar_rules::CharRule(rule) => {
                 check_name(&rule.name, "Rule name")?;
@@ -116,5 +119,24 @@ pub fn validate_grammar(grammar: &Grammar, settings: &CodegenSettings) -> Result
         }
     }
 
+    // Includes are expanded in place, so they must not form a cycle.
+    for (start, _) in &include_graph {
+        let mut stack: Vec<&str> = vec![start];
+        let mut visited: Vec<&str> = Vec::new();
+        while let Some(current) = stack.pop() {
+            if visited.contains(&current) {
+                continue;
+            }
+            visited.push(current);
+            if let Some((_, includes)) = include_graph.iter().find(|(name, _)| *name == current) {
+                for included in includes {
+                    if included == start {
+                        bail!("Rule {start} includes itself (through the '>' operator)");
+                    }
+                    stack.push(included);
+                }
+            }
+        }
+    }
     Ok(())
 }
